@@ -786,3 +786,271 @@ func walksOfOneListArePairedByPosition(c *core.Ctx) {
 	}
 	c.Stat("double_walks", n)
 }
+
+// ---------------------------------------------------------------------------
+// commasAreFollowedByANewlineStep: a line can be broken after a comma.  Where
+// the parser consumes a comma (a loop or a branch on "the next/current token
+// is a comma" that advances), it steps over line breaks before it looks at
+// what follows: with a loop over NEWLINE tokens or a call of the helper that
+// is one.  A list that does not do so rejects the line break that its
+// siblings accept (func f(a,\n b) against f(a,\n b); case 1,\n 2: against
+// [1,\n 2]).
+func commasAreFollowedByANewlineStep(c *core.Ctx) {
+	p := c.P
+	pp := p.Pkg("parser")
+	info := pp.TypesInfo
+	isTokTest := func(e ast.Expr, tok string) bool {
+		ce, ok := ast.Unparen(e).(*ast.CallExpr)
+		if !ok || len(ce.Args) == 0 {
+			return false
+		}
+		sel, ok := ce.Fun.(*ast.SelectorExpr)
+		if !ok || (sel.Sel.Name != "peekTokenIs" && sel.Sel.Name != "curTokenIs") {
+			return false
+		}
+		for _, a := range ce.Args {
+			if exprStr(a) == "token."+tok {
+				return true
+			}
+		}
+		return false
+	}
+	// helpers that are a loop over NEWLINE tokens
+	helper := map[string]bool{}
+	funcBodies(pp, func(fn *types.Func, fd *ast.FuncDecl) {
+		if len(fd.Body.List) == 1 {
+			if fs, ok := fd.Body.List[0].(*ast.ForStmt); ok && fs.Cond != nil && isTokTest(fs.Cond, "NEWLINE") {
+				helper[fd.Name.Name] = true
+			}
+		}
+	})
+	stepsOverNewlines := func(n ast.Node) bool {
+		found := false
+		ast.Inspect(n, func(nd ast.Node) bool {
+			switch x := nd.(type) {
+			case *ast.ForStmt:
+				if x.Cond != nil && isTokTest(x.Cond, "NEWLINE") {
+					found = true
+				}
+			case *ast.CallExpr:
+				if sel, ok := x.Fun.(*ast.SelectorExpr); ok && helper[sel.Sel.Name] {
+					found = true
+				}
+			}
+			return true
+		})
+		return found
+	}
+	n := 0
+	funcBodies(pp, func(fn *types.Func, fd *ast.FuncDecl) {
+		k := 0
+		var visit func(n ast.Node, enclosingLoop ast.Node)
+		visit = func(nd ast.Node, loop ast.Node) {
+			ast.Inspect(nd, func(x ast.Node) bool {
+				switch s := x.(type) {
+				case *ast.ForStmt:
+					if s.Cond != nil && isTokTest(s.Cond, "COMMA") {
+						n++
+						k++
+						ok := stepsOverNewlines(s.Body)
+						c.Check(ok, qual(pp, fd)+"|comma-then-newlines|"+sprintf("%d", k), p.Pos(s.Pos()),
+							fd.Name.Name+" consumes commas in a loop"+ife(ok, " and steps over line breaks after each", " and does not step over line breaks after them: a line broken after one of these commas is a parse error, while the lists of expressions accept it"))
+						return true
+					}
+					if s != nd {
+						visit(s.Body, s)
+						return false
+					}
+				case *ast.IfStmt:
+					if isTokTest(s.Cond, "COMMA") && loop != nil {
+						n++
+						k++
+						ok := stepsOverNewlines(s.Body) || stepsOverNewlines(loop)
+						c.Check(ok, qual(pp, fd)+"|comma-then-newlines|"+sprintf("%d", k), p.Pos(s.Pos()),
+							fd.Name.Name+" consumes a comma inside a loop"+ife(ok, " that steps over line breaks", " that never steps over line breaks: a line broken after the comma is a parse error (func f(a,\\n b) {}), while the lists of expressions accept it"))
+					}
+				}
+				return true
+			})
+		}
+		visit(fd.Body, nil)
+		_ = info
+	})
+	if n < 5 {
+		core.Undecidedf("only %d comma-consuming sites found in the parser", n)
+	}
+	c.Stat("comma_sites", n)
+}
+
+// ---------------------------------------------------------------------------
+// nodesAreNotBuiltOnTheTokenBefore: the parser keeps the token that came
+// before the current one.  A syntax node is built on that token (which then
+// gives the node its name and its position) only after the parser has looked
+// at what kind of token it is.  `++` and `--` name the variable in front of
+// them that way; unexamined, the "variable" is whatever token came before: a
+// closing bracket, a string, a line break (l[0]++ -> undefined variable "]",
+// x\n++ -> undefined variable "\n" at a column that line 2 does not have,
+// y := x++ silently parsed as y := x; x++).
+func nodesAreNotBuiltOnTheTokenBefore(c *core.Ctx) {
+	p := c.P
+	pp := p.Pkg("parser")
+	info := pp.TypesInfo
+	n := 0
+	funcBodies(pp, func(fn *types.Func, fd *ast.FuncDecl) {
+		k := 0
+		ast.Inspect(fd.Body, func(nd ast.Node) bool {
+			ce, ok := nd.(*ast.CallExpr)
+			if !ok {
+				return true
+			}
+			cal := calleeOf(info, ce)
+			if cal == nil || cal.Pkg() == nil || core.RelPkg(cal.Pkg()) != "ast" || !strings.HasPrefix(cal.Name(), "New") {
+				return true
+			}
+			uses := false
+			for _, a := range ce.Args {
+				if sel, ok := ast.Unparen(a).(*ast.SelectorExpr); ok && sel.Sel.Name == "prevToken" {
+					uses = true
+				}
+			}
+			if !uses {
+				return true
+			}
+			n++
+			k++
+			// a test of prevToken's type anywhere in the function in front of the call
+			tested := false
+			ast.Inspect(fd.Body, func(n2 ast.Node) bool {
+				if n2 == nil || n2.Pos() >= ce.Pos() {
+					return true
+				}
+				if sel, ok := n2.(*ast.SelectorExpr); ok && sel.Sel.Name == "Type" {
+					if in, ok := ast.Unparen(sel.X).(*ast.SelectorExpr); ok && in.Sel.Name == "prevToken" {
+						tested = true
+					}
+				}
+				return true
+			})
+			c.Check(tested, qual(pp, fd)+"|"+cal.Name()+"|on-an-examined-token|"+sprintf("%d", k), p.Pos(ce.Pos()),
+				fd.Name.Name+" builds a node with ast."+cal.Name()+" on the token that came before the current one"+ife(tested, " after looking at its type", " without looking at what kind of token that is: the operand of `++` is then whatever came before it (l[0]++ -> undefined variable \"]\"; x\\n++ -> undefined variable \"\\n\")"))
+			return true
+		})
+	})
+	if n == 0 {
+		c.Pass("parser|no-node-built-on-prevToken", "", "no syntax node is built on the token before the current one")
+	}
+	c.Stat("nodes_built_on_prev_token", n)
+}
+
+// ---------------------------------------------------------------------------
+// raisedErrorsAreNotPushedAsValues: an operation on a script object reports
+// failure either through a Go error or by returning an *Error whose raised
+// flag is set.  Where the dispatch loop pushes what a method of an object
+// returned (an attribute, the result of an operator), it has looked at the
+// result as an *Error first: a raised error that is pushed as if it were the
+// value lets the script carry on with an error object in hand (o.U64 on a Go
+// struct whose field does not fit an int evaluates to an error value, and
+// `x := o.U64; 1` succeeds).
+func raisedErrorsAreNotPushedAsValues(c *core.Ctx) {
+	p := c.P
+	t := VMTable(p)
+	eval := p.SSAFunc(t.Eval)
+	push := p.SSAFunc(t.Prims["push"])
+	op := p.Pkg("object")
+	objI := core.MustType(op, "Object")
+	errT := core.MustType(op, "Error")
+	may := mayReturnErrorObjects(p)
+	n := 0
+	k := map[string]int{}
+	for _, b := range eval.Blocks {
+		for _, in := range b.Instrs {
+			call, ok := in.(*ssa.Call)
+			if !ok || !call.Call.IsInvoke() {
+				continue
+			}
+			recvT := core.NamedOf(call.Call.Value.Type())
+			if recvT == nil || recvT.Obj().Pkg() != op.Types {
+				continue
+			}
+			// only methods of which some implementation builds an error object to report failure
+			// (an entry's Key and Value, an iterator's Next hand out what is stored)
+			reports := false
+			for fn, m := range may {
+				if m && fn.Signature.Recv() != nil && fn.Name() == call.Call.Method.Name() && fn.Parent() == nil {
+					reports = true
+				}
+			}
+			if !reports {
+				continue
+			}
+			// the Object-typed result (the call itself, or the first of a tuple)
+			var res ssa.Value
+			if core.NamedOf(call.Type()) == objI {
+				res = call
+			} else if tup, ok := call.Type().(*types.Tuple); ok && tup.Len() > 0 && core.NamedOf(tup.At(0).Type()) == objI && call.Referrers() != nil {
+				// (value, found) / (value, ok): no error result in the tuple
+				hasErr := false
+				for i := 0; i < tup.Len(); i++ {
+					if isErrorType(tup.At(i).Type()) || isErrorObjectPtr(p, tup.At(i).Type()) {
+						hasErr = true
+					}
+				}
+				if hasErr {
+					continue
+				}
+				for _, r := range *call.Referrers() {
+					if ex, ok := r.(*ssa.Extract); ok && ex.Index == 0 {
+						res = ex
+					}
+				}
+			}
+			if res == nil || res.Referrers() == nil {
+				continue
+			}
+			pushed, looked := false, false
+			seen := map[ssa.Value]bool{}
+			var walk func(v ssa.Value)
+			walk = func(v ssa.Value) {
+				if seen[v] || v.Referrers() == nil {
+					return
+				}
+				seen[v] = true
+				for _, r := range *v.Referrers() {
+					switch x := r.(type) {
+					case *ssa.TypeAssert:
+						if pt, ok := x.AssertedType.(*types.Pointer); ok && core.NamedOf(pt.Elem()) == errT {
+							looked = true
+						}
+						// a type switch re-binds the value
+						walk(x)
+					case *ssa.Extract:
+						walk(x)
+					case *ssa.Phi:
+						walk(x)
+					case *ssa.ChangeInterface:
+						walk(x)
+					case *ssa.MakeInterface:
+						walk(x)
+					case ssa.CallInstruction:
+						if x.Common().StaticCallee() == push {
+							pushed = true
+						}
+					}
+				}
+			}
+			walk(res)
+			if !pushed {
+				continue
+			}
+			n++
+			key := "vm.eval|" + recvT.Obj().Name() + "." + call.Call.Method.Name()
+			k[key]++
+			c.Check(looked, key+"|result-looked-at-before-it-is-pushed|"+sprintf("%d", k[key]), p.Pos(call.Pos()),
+				"the dispatch loop pushes what "+recvT.Obj().Name()+"."+call.Call.Method.Name()+" returned"+ife(looked, " after looking at it as an *Error", " without looking at it as an *Error: a raised error comes out as the value of the expression, and the script goes on (o.U64, where the Go field does not fit an int, is an error object; `x := o.U64; 1` evaluates to 1)"))
+		}
+	}
+	if n == 0 {
+		core.Undecidedf("the dispatch loop pushes no result of an object method")
+	}
+	c.Stat("pushed_method_results", n)
+}
